@@ -242,8 +242,8 @@ namespace Sample
 /-- lawful; 3 buckets (ids −1, 0, 1), 6 classes, 2 classes per bucket -/
 def m3e6 : Rules Int := { hash := fun x => x % 3 - 1, equiv := fun x y => x % 6 == y % 6 }
 
-/-- lawful; 2 buckets, 8 classes, 4 classes per bucket (long buckets) -/
-def m2e8 : Rules Int := { hash := fun x => x % 2, equiv := fun x y => x % 8 == y % 8 }
+/-- lawful; 2 buckets, 12 classes, 6 classes per bucket (long buckets) -/
+def m2e12 : Rules Int := { hash := fun x => x % 2, equiv := fun x y => x % 12 == y % 12 }
 
 /-- lawful and ordered by a strict total order on the classes (descending class) -/
 def ordTotal : Rules Int :=
@@ -261,7 +261,7 @@ def unlawful : Rules Int := { hash := fun x => x % 3, equiv := fun x y => x % 2 
 
 def byName : String → Option (Rules Int)
   | "m3e6" => some m3e6
-  | "m2e8" => some m2e8
+  | "m2e12" => some m2e12
   | "ordTotal" => some ordTotal
   | "ordTies" => some ordTies
   | "unlawful" => some unlawful
